@@ -128,6 +128,7 @@ Proof.
       | FUniquifier => mk_uniquified d (m_res m) (m_cache m)
       | FSingleChar => mk_single_char d (m_res m) (m_cache m)
       | FCharset => mk_charset d (m_res m) (m_cache m)
+      | FSimplifier conv => mk_simplified d conv (m_res m) (m_cache m)
       end in mkMenu t c)) = map shown (m_cache m)).
   { destruct f.
     - unfold mk_uniquified.
@@ -138,7 +139,10 @@ Proof.
       destruct (rearrange _ _ _ _ _ _) as [[t' q] c']. exact S1.
     - unfold mk_charset.
       pose proof (locate_shown (next_d d) (next_d_shown d) (S (rem (m_res m))) (m_res m) (m_cache m)) as S1.
-      destruct (locate _ _ _ _) as [[found t'] c']. exact S1. }
+      destruct (locate _ _ _ _) as [[found t'] c']. exact S1.
+    - unfold mk_simplified.
+      pose proof (settle_shown (next_d d) (next_d_shown d) conv (m_res m) (m_cache m)) as S1.
+      destruct (settle _ _ _ _) as [t' c']. exact S1. }
   apply (f_equal (@length _)) in G. now rewrite !map_length in G.
 Qed.
 
